@@ -121,6 +121,13 @@ func inject(s *surface, j, kind int) []byte {
 		}
 		ch[0] = 0xed
 		ch[len(ch)-1] = 0x7f
+	case 7, 8, 9, 10, 11, 12, 13, 14:
+		// generic near misses: a well-formed string a few bits away from the valid one (canonical, sign bit untouched) -- the
+		// class a decoder rejects LATE, after the cheap checks (not on the curve / not a square)
+		pos := []int{1, 5, 9, 13, 17, 21, 25, 29}[kind-7]
+		if pos < len(ch) {
+			ch[pos] ^= byte(2 << uint(kind%5))
+		}
 	case 6:
 		copy(ch, []byte{0xed, 0xd3, 0xf5, 0x5c, 0x1a, 0x63, 0x12, 0x58, 0xd6, 0x9c, 0xf7, 0xa2, 0xde, 0xf9, 0xde, 0x14, 0, 0, 0, 0, 0, 0, 0, 0, 0, 0, 0, 0, 0, 0, 0, 0x10})
 	}
@@ -135,7 +142,7 @@ func run(c *mc.Ctx) {
 		class int
 		used  bool
 		nilIn bool
-		inj   int // -1 none, else 8*chunk+kind
+		inj   int // -1 none, else 16*chunk+kind
 	}
 	var all []cs
 	for i := range surfaces {
@@ -154,8 +161,8 @@ func run(c *mc.Ctx) {
 		all = append(all, cs{s, 0, 0, false, true, -1}, cs{s, 0, 0, true, true, -1})
 		if s.size > 0 {
 			for j := 0; j*32 < s.size; j++ {
-				for kind := 0; kind < 7; kind++ {
-					all = append(all, cs{s, s.size, 9, false, false, 8*j + kind}, cs{s, s.size, 9, true, false, 8*j + kind})
+				for kind := 0; kind < 15; kind++ {
+					all = append(all, cs{s, s.size, 9, false, false, 16*j + kind}, cs{s, s.size, 9, true, false, 16*j + kind})
 				}
 			}
 		}
@@ -165,7 +172,7 @@ func run(c *mc.Ctx) {
 		s := k.s
 		var data []byte
 		if k.inj >= 0 {
-			data = inject(s, k.inj/8, k.inj%8)
+			data = inject(s, k.inj/16, k.inj%16)
 		} else if !k.nilIn {
 			data = content(s, k.n, k.class)
 		}
@@ -232,6 +239,7 @@ func run(c *mc.Ctx) {
 	c.Rep.Extra["surfaces"] = len(surfaces)
 	cacheHistories(c)
 	sizeThresholds(c)
+	optionFlags(c)
 	selfAliasedDecode(c)
 	transcripts(c)
 }
@@ -286,13 +294,36 @@ func buildSurfaces(c *mc.Ctx) []surface {
 		}
 		return p
 	}
-	edState := func(p *curve.EdwardsPoint) interface{} { return mc.Hex(mustHex(p.MarshalBinary())) }
-	idEnc := mc.Hex(mustHex(curve.NewEdwardsPoint().Identity().MarshalBinary()))
+	// the receiver is observed through its encoding AND through the encoding of receiver + B: the extended coordinate T is
+	// invisible to an encoding but not to the next addition (a decoder that leaves a stale T behind after a failure)
+	edState := func(p *curve.EdwardsPoint) interface{} {
+		var q curve.EdwardsPoint
+		q.Add(p, curve.ED25519_BASEPOINT_POINT)
+		return mc.Hex(mustHex(p.MarshalBinary())) + "|+B=" + mc.Hex(mustHex(q.MarshalBinary()))
+	}
+	idEnc := edState(curve.NewEdwardsPoint().Identity())
 	add(surface{name: "EdwardsPoint.UnmarshalBinary", size: 32, valid: b2enc, call: func(used bool, d []byte) (o outcome) {
 		p := newEd(used)
 		o.before, o.neutral = edState(p), idEnc
 		guard(&o, func() { o.accepted = p.UnmarshalBinary(d) == nil })
 		o.after = edState(p)
+		return
+	}})
+	// the typed decoders take a 32-byte array: other lengths cannot be expressed (reported as rejected without a call)
+	add(surface{name: "EdwardsPoint.SetCompressedY", size: 32, valid: b2enc, call: func(used bool, d []byte) (o outcome) {
+		p := newEd(used)
+		o.before = edState(p)
+		o.after = o.before
+		if len(d) != 32 {
+			return
+		}
+		var cy curve.CompressedEdwardsY
+		copy(cy[:], d)
+		guard(&o, func() { _, err := p.SetCompressedY(&cy); o.accepted = err == nil })
+		o.after = edState(p)
+		if !o.accepted && reflect.DeepEqual(o.after, idEnc) {
+			o.after = o.before // neutral is as good as unchanged
+		}
 		return
 	}})
 	newCEd := func(used bool) *curve.CompressedEdwardsY {
@@ -328,13 +359,33 @@ func buildSurfaces(c *mc.Ctx) []surface {
 		}
 		return p
 	}
-	rState := func(p *curve.RistrettoPoint) interface{} { return mc.Hex(mustHex(p.MarshalBinary())) }
-	ridEnc := mc.Hex(mustHex(curve.NewRistrettoPoint().Identity().MarshalBinary()))
+	rState := func(p *curve.RistrettoPoint) interface{} {
+		var q curve.RistrettoPoint
+		q.Add(p, curve.RISTRETTO_BASEPOINT_POINT)
+		return mc.Hex(mustHex(p.MarshalBinary())) + "|+B=" + mc.Hex(mustHex(q.MarshalBinary()))
+	}
+	ridEnc := rState(curve.NewRistrettoPoint().Identity())
 	add(surface{name: "RistrettoPoint.UnmarshalBinary", size: 32, valid: r2enc, call: func(used bool, d []byte) (o outcome) {
 		p := newR(used)
 		o.before, o.neutral = rState(p), ridEnc
 		guard(&o, func() { o.accepted = p.UnmarshalBinary(d) == nil })
 		o.after = rState(p)
+		return
+	}})
+	add(surface{name: "RistrettoPoint.SetCompressed", size: 32, valid: r2enc, call: func(used bool, d []byte) (o outcome) {
+		p := newR(used)
+		o.before = rState(p)
+		o.after = o.before
+		if len(d) != 32 {
+			return
+		}
+		var cr curve.CompressedRistretto
+		copy(cr[:], d)
+		guard(&o, func() { _, err := p.SetCompressed(&cr); o.accepted = err == nil })
+		o.after = rState(p)
+		if !o.accepted && reflect.DeepEqual(o.after, ridEnc) {
+			o.after = o.before
+		}
 		return
 	}})
 	newCR := func(used bool) *curve.CompressedRistretto {
@@ -503,6 +554,52 @@ func buildSurfaces(c *mc.Ctx) []surface {
 		})
 		return
 	}})
+	// A small-order public key makes the verification equation independent of the challenge k: (R = [s]B, S = s) satisfies
+	// [8]([S]B - [k]A - R) = O for every message whenever A is in E[8] and the options admit small-order A.  So a batch entry
+	// whose key bytes are zero-padded or truncated INTO such a key verifies -- unless the length is checked (the hashed key
+	// bytes do not matter here, which is what hides a missing length check behind honest signatures).
+	{
+		var sB curve.EdwardsPoint
+		s5 := scalar.NewFromUint64(5)
+		sB.MulBasepoint(curve.ED25519_BASEPOINT_TABLE, s5)
+		fsig := append(mustHex(sB.MarshalBinary()), mustHex(s5.MarshalBinary())...)
+		zeroKey := make([]byte, 32) // y = 0: a point of order 4
+		idKey := make([]byte, 32)   // the identity
+		idKey[0] = 1
+		for _, kk := range []struct {
+			n string
+			k []byte
+		}{{"order-4", zeroKey}, {"identity", idKey}} {
+			kk := kk
+			for _, oo := range []struct {
+				n string
+				o *ed25519.VerifyOptions
+			}{{"ZIP-215", ed25519.VerifyOptionsZIP_215}, {"FIPS-186-5", ed25519.VerifyOptionsFIPS_186_5}} {
+				oo := oo
+				add(surface{name: "BatchVerifier.AddWithOptions(" + kk.n + " key bytes, challenge-independent signature, " + oo.n + ")", size: 32, valid: kk.k, call: func(used bool, d []byte) (o outcome) {
+					guard(&o, func() {
+						opts := &ed25519.Options{Verify: oo.o}
+						v := ed25519.NewBatchVerifier()
+						if used {
+							v.ForceNoPublicKeyExpansion()
+						}
+						v.AddWithOptions(d, msg, fsig, opts)
+						all, each := v.Verify(bytes.NewReader(make([]byte, 64)))
+						bo := v.VerifyBatchOnly(bytes.NewReader(make([]byte, 64)))
+						cv := cache.NewVerifier(cache.NewLRUCache(2))
+						bv := ed25519.NewBatchVerifier()
+						cv.AddWithOptions(bv, d, msg, fsig, opts)
+						all2, each2 := bv.Verify(bytes.NewReader(make([]byte, 64)))
+						o.accepted = all || each[0] || bo || all2 || (len(each2) > 0 && each2[0])
+						if len(d) == 32 && !(all && each[0] && bo && all2 && len(each2) == 1 && each2[0]) {
+							o.accepted = false // every route must accept the well-formed entry
+						}
+					})
+					return
+				}})
+			}
+		}
+	}
 	add(surface{name: "cache.Verifier.Verify(public key bytes)", size: 32, valid: pk, call: func(used bool, d []byte) (o outcome) {
 		guard(&o, func() {
 			v := cache.NewVerifier(cache.NewLRUCache(2))
